@@ -179,7 +179,9 @@ Connect(a, c) ==
      IF k.ps # "idle" THEN
        \* BaseState.connect: a Deferred already failed with MQTTStateError
        /\ nd' = d /\ fx' = <<FireErr(d, "MQTTStateError"), Ret(d, -1)>>
-       /\ UNCHANGED <<nextId, sess, conn, timers, now>>
+       /\ IF "refused_connect_sets_params" \in Bugs /\ chk = "ok"
+          THEN SetConn(a, [k EXCEPT !.clean = c.clean, !.ver = c.ver]) /\ UNCHANGED <<nextId, sess, timers, now>>
+          ELSE UNCHANGED <<nextId, sess, conn, timers, now>>
      ELSE IF chk = "TypeError" THEN
        \* doConnect only catches ValueError: a TypeError escapes synchronously, no Deferred is created
        /\ fx' = <<Raise("TypeError")>> /\ UNCHANGED <<nextId, nd, sess, conn, timers, now>>
@@ -435,6 +437,12 @@ HandlePUBREC(a, p) ==
           /\ timers' = (timers \ ct) \cup {t}
           /\ fx' = CancelSeq(ct) \o <<Arm(t), W(a, k.g, PktPubrel(r.id, 0))>>
           /\ UNCHANGED <<nextId, nd, conn, now>>
+  ELSE IF "pubrec_repeat_resends" \in Bugs /\ Has(s.rel, p.id)
+  THEN \* (mutant) a repeated PUBREC re-sends the PUBREL at once and arms another timer beside the one that runs
+       LET r == s.rel[Pos(s.rel, p.id)]
+           t == Timer("rel", a, k.g, r.id, now + IntervalDelay(r.n + 1, r.initT) + 1, "")
+       IN /\ timers' = timers \cup {t} /\ fx' = <<Arm(t), W(a, k.g, PktPubrel(r.id, IF k.ver = 3 THEN 1 ELSE 0))>>
+          /\ UNCHANGED <<nextId, nd, sess, conn, now>>
   ELSE fx' = <<>> /\ UNCHANGED sv
 
 HandlePUBCOMP(a, p) ==
